@@ -338,6 +338,52 @@ Definition prop_verify (args : list bytes) : bytes :=
   | [] => bs "badargs"
   end.
 
+(* ---- the completeness half of the property as an oracle on the implementation's outcome
+   (sign_send_verify, executable): [method; origin; dest; uri; has_content; content; keyid;
+   url_rt; outcome] where outcome is content=err / sign=err / http=err or the observable of
+   VerifyHTTPRequest at a receiver named dest that holds the signing key, valid now.
+   In the property's domain -- method an HTTP token, URI that net/url writes back unchanged,
+   origin and destination valid server names, key ID ed25519:[A-Za-z0-9_]+, body JSON in UTF-8
+   or none -- signing and sending must succeed and the request must be accepted, reporting the
+   five signed fields. ---- *)
+Definition g_key_char (c : N) : bool :=
+  g_digit c || ((65 <=? c) && (c <=? 90)) || ((97 <=? c) && (c <=? 122)) || (c =? 95).
+Definition g_key_id (k : bytes) : bool :=
+  is_prefix s_ed25519 k && negb (is_nil (drop 8 k)) && forallb g_key_char (drop 8 k).
+Definition g_name (s : bytes) : bool := g_server_name s && valid_server_name s.
+
+Definition prop_roundtrip (args : list bytes) : bytes :=
+  match args with
+  | [method; origin; dest; uri; hasc; content; keyid; url_rt; obs] =>
+      let m := map upper_byte method in
+      let c := opt_content hasc content in
+      let in_domain :=
+        negb (is_nil m) && forallb is_tchar m
+        && utf8_valid uri && bytes_eqb url_rt (85 :: uri)
+        && g_name origin && g_name dest && g_key_id keyid
+        && match c with
+           | None => true
+           | Some raw => utf8_valid raw && is_some (parse_json raw)
+           end in
+      if negb in_domain then bs "ok" else
+      let ls := split_all 10 obs in
+      match find_line (bs "code") ls with
+      | None => bs "FAIL a request in the domain could not be signed and sent: " ++ obs
+      | Some code =>
+          if negb (bytes_eqb code (bs "200")) then bs "FAIL honest request refused with " ++ code else
+          match hex_field "m" ls, hex_field "u" ls, hex_field "o" ls, hex_field "d" ls, ohex_field "c" ls with
+          | Some rm, Some ru, Some ro, Some rd, Some rc =>
+              check 11 (bytes_eqb rm m)
+              (check 12 (bytes_eqb ru uri)
+              (check 13 (bytes_eqb ro origin)
+              (check 14 (bytes_eqb rd dest)
+              (check 15 (same_json c rc) (bs "ok")))))
+          | _, _, _, _, _ => bs "FAIL unreadable observable"
+          end
+      end
+  | _ => bs "badargs"
+  end.
+
 (* ---- small operations ---- *)
 Definition run_parse_auth (args : list bytes) : bytes :=
   match args with
@@ -365,6 +411,7 @@ Definition ops_C13 : list (bytes * (list bytes -> bytes)) :=
   [ (bs "C13.send", run_send);
     (bs "C13.verify", run_verify);
     (bs "C13.prop.verify", prop_verify);
+    (bs "C13.prop.roundtrip", prop_roundtrip);
     (bs "C13.parse_auth", run_parse_auth);
     (bs "C13.server_name", run_server_name);
     (bs "C13.prop.server_name", prop_server_name);
